@@ -143,8 +143,8 @@ def model_terms(job, res, mode):
     """(lhs, rhs, checker_lhs) Coq terms for one forced run"""
     opts = job.get("opts", {})
     more = 0 if job["target"] == "reusable-rg" else max(0, opts.get("max_repeats", 1) - 1)
-    cfg = "(mkC %s %s %s %d)" % (MODES[mode], OWS[opts.get("overwrite", False)],
-                                 coq(bool(opts.get("cache_only", False))), more)
+    cfg = "(mkC %s %s %s %d %s)" % (MODES[mode], OWS[opts.get("overwrite", False)],
+                                    coq(bool(opts.get("cache_only", False))), more, coq(job.get("api") == "path"))
     rs = ranks([r[3] for r in res["scores"]])
     re_ = ranks([r[3] for r in res["escores"]])
     hards = res["hards"] if res["hards"] is not None else []
@@ -194,9 +194,10 @@ def forced_jobs(ctx, rng):
     jobs = []
     quick = ctx.quick
 
-    def add(target, opts, pool, programs, macro, tag):
+    def add(target, opts, pool, programs, macro, tag, api="tree"):
         jobs.append({"kind": "forced", "target": target, "opts": opts, "queries": pool,
-                     "programs": programs, "macro": macro, "tag": tag})
+                     "programs": programs, "macro": macro, "tag": tag + (":path" if api == "path" else ""),
+                     "api": api})
 
     small = distinct_pool(rng, [4, 6, 5, 7])
     reusable_cfgs = [
@@ -217,7 +218,8 @@ def forced_jobs(ctx, rng):
     orders = [o for o in itertools.product((0, 1), repeat=10) if sum(o) == 5]
     for target, opts in reusable_cfgs:
         for o in rng.sample(orders, ctx.n(20, len(orders))):
-            add(target, opts, small, [[0, 1], [1, 0]], [[t, "shared"] for t in o], "orderings:cross")
+            add(target, opts, small, [[0, 1], [1, 0]], [[t, "shared"] for t in o], "orderings:cross",
+                api=rng.choice(("tree", "path")))
     auto_cfgs = [
         ("auto", {"cache": True, "optimal_cutoff": 0, "max_repeats": 1, "methods": ["greedy"], "optlib": "random"}),
         ("auto", {"cache": False, "optimal_cutoff": 0, "max_repeats": 2, "methods": ["greedy"], "optlib": "random"}),
@@ -228,14 +230,14 @@ def forced_jobs(ctx, rng):
     for target, opts in auto_cfgs:
         for progs in ([[0], [1]], [[0, 1], [1, 0]], [[3, 0], [1, 3, 2]]):
             for o in rng.sample(orders6, ctx.n(12, 300)):
-                add(target, opts, small, progs, [[t, "shared"] for t in o], "auto")
+                add(target, opts, small, progs, [[t, "shared"] for t in o], "auto", api=rng.choice(("tree", "tree", "path")))
     # (b) random programs, 2-3 threads, micro-step schedules
     for _ in range(ctx.n(160, 2500)):
         target, opts = rng.choice(reusable_cfgs + auto_cfgs)
         nt = rng.choice((2, 2, 3))
         progs = [[rng.randrange(4) for _ in range(rng.randint(1, 3))] for _ in range(nt)]
         macro = [[rng.randrange(nt), rng.choice(("one", "one", "shared"))] for _ in range(rng.randint(5, 40))]
-        add(target, opts, small, progs, macro, "random%d" % nt)
+        add(target, opts, small, progs, macro, "random%d" % nt, api=rng.choice(("tree", "tree", "path")))
     # (c) all full interleavings of the 7 atomic steps of two threads (thorough)
     if not quick:
         target, opts = reusable_cfgs[0]
